@@ -12,6 +12,7 @@ CONSTANTS
   DDVft = {"no"}
   B1Names = {"b1"}
   SameName = TRUE
+  XdNames = {"xd"}
   Ptrs = {4, 8}
   Lead = {FALSE, TRUE}
   EmptyBlocks = {FALSE, TRUE}
